@@ -241,6 +241,14 @@ Ltac model_norm IL IE :=
   cbn [nth repeat];
   repeat (first [ model_step IL IE | progress cbn [apply_dense2 map2] ]).
 
+(* no universally quantified register / scalar was introduced *)
+Ltac closed_goal :=
+  lazymatch goal with
+  | _ : in_range _ _ |- _ => fail
+  | _ : length _ = _ |- _ => fail
+  | _ => idtac
+  end.
+
 Ltac solve_int r t R :=
   let IL := fresh "IL" in
   let IE := fresh "IE" in
@@ -250,7 +258,7 @@ Ltac solve_int r t R :=
   intros; open_dense; open_ok; norm_lanes R;
   unfold_all;
   first
-    [ (* closed: constants, lane counts *) solve [ vm_compute; reflexivity ]
+    [ (* closed: constants, lane counts *) closed_goal; vm_compute; reflexivity
     | enc_norm; dec_norm; model_norm IL IE; norm_lanes R; reflexivity
     | (* across-vector reductions of the instruction set: the model is the same fold *)
       unfold vreduce_add, vreduce_max, vreduce_min; dec_norm; cbv zeta; reflexivity ].
